@@ -975,9 +975,9 @@ TRUSTED = ["defusedxml forbids entity expansion", "stat().st_size is the size re
 # (the four router functions are no longer listed here: each is verified in the run by `conform[router.py::<fn>]`; one that is not
 #  proved shows up in `assumed_contracts` under its own target, see pyvc/check.py `verified_assumed`)
 ASSUMED_MODELS = ["pathlib.Path.stat/st_size", "open()", "io.BytesIO.seek/tell (position, SEEK_END = size)",
-                  "sevenzip.py::SevenZipReader._read_boolean_vector: its requires (count <= max(REPEAT_CAP, header size)) is an obligation only at the call sites in "
-                  "methods under contract (_parse_files_info); the call sites in _parse_pack_info / _parse_unpack_info / _parse_substreams_info / _skip_substreams_info "
-                  "are NOT checked (those parsers are not under contract)",
+                  "sevenzip.py::SevenZipReader._read_boolean_vector is verified UNDER its requires (count <= max(REPEAT_CAP, header size)); that requires is "
+                  "NOT yet an obligation at any call site: the loops of the parsers that call it (_parse_files_info's property loop, _parse_pack_info, _parse_unpack_info, "
+                  "_parse_substreams_info, _skip_substreams_info) are cut without executing their bodies / those parsers are not under contract",
                   "sevenzip.py header parsers: a call of another SevenZipReader method is modelled as 'returns anything (an arbitrary int when annotated -> int), raises "
                   "anything, stream position anywhere, stream binding kept iff no store to it in the callee (AST, three levels)'"]
 BOUNDED = ["native-scope#explicit-limits, native-scope#zip-bomb-classes, native-scope#7z-declared-sizes and native-scope#repeat-attribute-classes: directed native runs of the replayer on every check (never counted as proved)"]
